@@ -16,7 +16,8 @@ type Case struct {
 	Part    string `json:"part"`              // script | special | sim
 	Script  string `json:"script,omitempty"`
 	What    string `json:"what,omitempty"`
-	RunDir  string `json:"run_dir,omitempty"` // "" | existing | missing
+	RunDir  string `json:"run_dir,omitempty"`      // "" | existing | missing
+	Stdio   string `json:"caller_stdio,omitempty"` // state of the CALLER's own standard output and error: "" (writable) | closed | full (every write fails, as on a full disk)
 }
 
 func scripts(maxLen int) []string {
@@ -86,6 +87,22 @@ func judgeScript(c *mcx.Ctx, cs Case) (obs, sig, class string) {
 		dir = gen.FreshDir(c.Work, "rundir")
 	case "missing":
 		dir = c.Work + "/no-such-directory"
+	}
+	if cs.Stdio != "" {
+		// what the command wrote is returned whatever the state of the caller's own standard streams
+		var f *os.File
+		if cs.Stdio == "full" {
+			f, _ = os.OpenFile("/dev/full", os.O_WRONLY, 0)
+		} else {
+			f, _ = os.Open(os.DevNull)
+			f.Close()
+		}
+		if f == nil {
+			return "no /dev/full here", "", "skip"
+		}
+		so, se := os.Stdout, os.Stderr
+		os.Stdout, os.Stderr = f, f
+		defer func() { os.Stdout, os.Stderr = so, se; f.Close() }()
 	}
 	r := runReal([]string{vchild(), cs.Script}, dir)
 	c.Impl(1)
@@ -269,6 +286,11 @@ func enumerate(thorough bool, emit func(Case)) {
 	for _, s := range vol {
 		emit(Case{Part: "script", Script: s})
 	}
+	for _, io := range []string{"closed", "full"} {
+		for _, s := range []string{"x0", "O1,x0", "E1,x3", "O1,E1,O1,x2", "O3,E3,x0", "O32,x0", "E32,x1", "O16,E16,O16,E16,x0", "B32,x5"} {
+			emit(Case{Part: "script", Script: s, Stdio: io})
+		}
+	}
 	for _, w := range []string{"empty-command", "nil-command", "missing-executable", "not-executable", "invalid-executable-format", "missing-interpreter", "byproducts-of-run", "byproducts-of-run-with-line-normalisation", "byproducts-of-run-following-links", "relative-command-in-run-directory", "bare-command-name-from-path"} {
 		emit(Case{Part: "special", What: w})
 	}
@@ -303,7 +325,11 @@ func run(c *mcx.Ctx) {
 		}
 		c.Case(cs.Part == "script" && cs.Script != "x0")
 		c.Step(1, int64(strings.Count(cs.Script, ",")+1))
-		c.Outcome(class + "|" + scriptClass(cs.Script))
+		if class == "skip" {
+			c.Count("skipped:"+obs, 1)
+			return
+		}
+		c.Outcome(class + "|" + scriptClass(cs.Script) + map[bool]string{true: "|caller-stdio-" + cs.Stdio}[cs.Stdio != ""])
 		if sig != "" {
 			c.Violation(sig, fmt.Sprintf("%+v: %s", cs, clip(obs)), cs, clip(obs))
 		}
